@@ -601,7 +601,8 @@ def panics_of_correspondence(diffs):
 def oracle_c19(tables, seed, tier, deep):
     n = 1500 if (tier == "thorough" or deep) else 200
     cases = grammar_cases(seed ^ 0x19, n) + misc_cases(tables, seed ^ 0x19, n // 2)
-    cfgs = [Cfg(), Cfg(n=True), Cfg(b=True), Cfg(n=True, b=True, i=True), Cfg(repl='X"y\\z é'), Cfg(repl=""), Cfg(repl="$r", n=True), Cfg(repl="0", i=True)]
+    cfgs = [Cfg(), Cfg(n=True), Cfg(b=True), Cfg(n=True, b=True, i=True), Cfg(repl='X"y\\z é'), Cfg(repl=""), Cfg(repl="$r", n=True), Cfg(repl="0", i=True),
+            Cfg(repl="ask admin@corp.example for access"), Cfg(repl="mailto:a@b.example", n=True), Cfg(repl="QUJD"), Cfg(repl="1970-01-01T00:00:00.000Z", b=True)]
     pairs = [(cs, cfgs[i % len(cfgs)]) for i, cs in enumerate(cases)]
     r1 = run_lines(pairs)
     second = []
@@ -621,7 +622,39 @@ def oracle_c19(tables, seed, tier, deep):
             a, b = cs2.text, t2 or r
             j = next((j for j in range(min(len(a), len(b))) if a[j] != b[j]), min(len(a), len(b)))
             viol.append({"site": "notfixed", "detail": "second pass differs at byte %d: %r vs %r" % (j, a[max(0, j - 60):j + 60], b[max(0, j - 60):j + 60]), "cfg": c.s(), "cli_flags": c.cli(), "input": pairs[k][0].text})
-    return result(viol, len(pairs) + len(second), len(second), "redact(redact(x)) == redact(x) byte for byte on grammar lines, other-component lines and arbitrary operator trees, value-redaction flags only; distinct_nontrivial = lines that produced output and were fed back",
+    # whole FILES through the stream reader, twice: files that hold entries differing only in their secrets (their redactions are
+    # identical lines), the same entry several times, blank lines in between
+    rng = SplitMix(seed ^ 0x1919)
+    sops = []
+    for gi in range(12 if (tier == "thorough" or deep) else 4):
+        c = cfgs[gi % 4]
+        chunk = [cs for cs in cases[gi * 7: gi * 7 + 5] if "\n" not in cs.text]
+        lines = []
+        for cs in chunk:
+            lines.append(cs.text.encode("utf-8"))
+            if cs.roles:
+                lines.append(to_json(reassign(cs.tree, cs.roles, rng, c)).encode("utf-8"))
+            if rng.chance(1, 3):
+                lines.append(lines[-1])
+        lines = [l for l in lines if b"\n" not in l and len(l) < 20000]
+        if lines:
+            sops.append((gi, c, b"\n".join(lines) + b"\n"))
+    p1 = go_exec([("f%d" % gi, ["stream", c.s(), "-", hx(data)]) for gi, c, data in sops])
+    second_in = {}
+    for gi, c, data in sops:
+        r = p1.get("f%d" % gi, "noanswer").split(" ")
+        if r[0] == "ok":
+            second_in[gi] = unhxb(r[1])
+    p2 = go_exec([("g%d" % gi, ["stream", c.s(), "-", hx(second_in[gi])]) for gi, c, data in sops if gi in second_in])
+    for gi, c, data in sops:
+        if gi not in second_in:
+            continue
+        r = p2.get("g%d" % gi, "noanswer").split(" ")
+        out2 = unhxb(r[1]) if r[0] == "ok" else None
+        if out2 != second_in[gi]:
+            viol.append({"site": "notfixed:file", "detail": "second pass over a whole file: %d lines after the first pass, %s after the second" % (second_in[gi].count(b"\n"), "error" if out2 is None else "%d lines" % out2.count(b"\n")),
+                         "cfg": c.s(), "cli_flags": c.cli(), "input_hex": hx(data)})
+    return result(viol, len(pairs) + len(second) + 2 * len(sops), len(second), "redact(redact(x)) == redact(x) byte for byte on grammar lines, other-component lines and arbitrary operator trees, value-redaction flags only; distinct_nontrivial = lines that produced output and were fed back",
                   {}, [pairs[0][0].text[:300]] if pairs else [])
 
 
@@ -726,7 +759,7 @@ def spec_well_defined(f):
     return True
 
 
-def run_cli_combo(bits, fake_url, workdir):
+def run_cli_combo(bits, fake_url, workdir, file_arg=None):
     import shutil, tempfile, zlib
     forced_kind = None
     if "/" in bits:
@@ -741,7 +774,7 @@ def run_cli_combo(bits, fake_url, workdir):
     os.mkdir(scratch)
     args = ["redact"]
     if f["file"]:
-        args.append(inp)
+        args.append(inp if file_arg is None else file_arg)
     if f["out"]:
         args += ["-o", os.path.join(scratch, "out.log")]
     if f["encrypt"]:
@@ -849,6 +882,7 @@ def oracle_c18(tables, seed, tier, deep):
     viol = []
     dist = collections.Counter()
     model = lean_exec([(b, ["validate", b.split("/")[0]]) for b in combos])
+    file_probe = None
     try:
         def one(b):
             before = len(fake.log)
@@ -887,8 +921,22 @@ def oracle_c18(tables, seed, tier, deep):
                     detail += " (stdin is %s)" % stdin_kinds[int(b.split("/")[1])]
                 viol.append({"site": "cli:" + site + ":" + "+".join(flags), "detail": detail, "bits": b, "flags": flags, "input": b})
             md = model.get(b, "")
+            if file_probe is not None:
+                pass
             if md and (md.startswith("accept") != (rc == 0)):
                 viol.append({"site": "model-vs-cli:" + "+".join(flags), "detail": "model says %r, the CLI exited %d" % (md, rc), "bits": b, "flags": flags, "input": b, "correspondence": True})
+        # a file argument that is PRESENT but names nothing: the empty string must be treated like any other name of a file that
+        # does not exist (same accept / reject decision, same files created) - not as "no file argument"
+        for kw in (dict(file=1), dict(file=1, out=1), dict(file=1, stdin=1), dict(file=1, stdin=1, out=1), dict(file=1, project=1, cluster=1, out=1, pub=1, priv=1),
+                   dict(file=1, stdin=1, encrypt=1, out=1), dict(file=1, encrypt=1, out=1)):
+            b = bitsof(**kw) + "/0"
+            r_empty = run_cli_combo(b, fake.url, work, file_arg="")
+            r_missing = run_cli_combo(b, fake.url, work, file_arg="zq-no-such-file.log")
+            dist["empty-file-argument"] += 1
+            if (r_empty[1] == 0) != (r_missing[1] == 0) or r_empty[4] != r_missing[4]:
+                flags = [n_ for n_ in FLAG_NAMES if kw.get(n_)]
+                viol.append({"site": "cli:empty-file-argument:" + "+".join(flags), "detail": "file argument \"\": exit %d, created %r; a missing file named otherwise: exit %d, created %r" % (r_empty[1], r_empty[4], r_missing[1], r_missing[4]),
+                             "flags": flags, "input": "redact \"\" " + " ".join(flags)})
     finally:
         fake.close()
         shutil.rmtree(work, ignore_errors=True)
@@ -2587,16 +2635,17 @@ def atlas_payload(rng, host_i, nlines):
     return b"\n".join(out) + (b"\n" if out and rng.chance(3, 4) else b"")
 
 
-def run_atlas(sc, work, flags=(), dates=None, key_via="flag", pub="pubkey", priv="privkey", out_block=None, timeout=90, prefill=None, tmp_spelling=None, pre=None):
+def run_atlas(sc, work, flags=(), dates=None, key_via="flag", pub="pubkey", priv="privkey", out_block=None, timeout=90, prefill=None, tmp_spelling=None, pre=None, reuse_dir=None):
     """run the real CLI in Atlas mode against a fake endpoint; returns dict with rc, stdout, stderr, log, tmp listing, outputs"""
     import fakeatlas, tempfile
     sc.public, sc.private = pub, priv.strip()
     fake = fakeatlas.Fake(sc)
-    d = tempfile.mkdtemp(prefix="atl_", dir=work)
+    d = reuse_dir or tempfile.mkdtemp(prefix="atl_", dir=work)
     tmpd = os.path.join(d, "tmp")
     outd = os.path.join(d, "out")
-    os.mkdir(tmpd)
-    os.mkdir(outd)
+    if not reuse_dir:
+        os.mkdir(tmpd)
+        os.mkdir(outd)
     out = os.path.join(outd, "mongod.redacted.log")
     if out_block is not None:
         os.mkdir(out + ".%d" % out_block)          # a directory where <out>.<i> should be created
@@ -2647,8 +2696,9 @@ def atlas_scenarios(rng, big):
     import fakeatlas
     scs = []
     hostsets = [["h0.example.net:27017"], ["a-shard-00-00.abc.mongodb.net:27017", "a-shard-00-01.abc.mongodb.net:27017", "a-shard-00-02.abc.mongodb.net:27017"],
-                ["n1.example.net", "n2.example.net:1", "n3.example.net:65535", "n4.example.net", "n5.example.net:27017"], ["same.example.net:27017", "same.example.net:27018"]]
-    for hs in hostsets if big else hostsets[:3]:
+                ["n1.example.net", "n2.example.net:1", "n3.example.net:65535", "n4.example.net", "n5.example.net:27017"],
+                ["zeta.example.net:27017", "alpha.example.net:27017", "mid.example.net:27018"], ["same.example.net:27017", "same.example.net:27018"]]
+    for hs in hostsets if big else hostsets[:4]:
         plains = [atlas_payload(rng, i, [0, 1, 2, 7, 40][rng.below(5)]) for i in range(len(hs))]
         scs.append((hs, plains))
     return scs
@@ -2755,13 +2805,37 @@ def oracle_c16(tables, seed, tier, deep):
                     rc2, exp = expected_redaction(plain, [], work)
                     if got != exp:
                         viol.append(dict(rep, site="atlas:output-shifted", detail="%s.%d exists after a failed download of host %d and is not the redaction of host %d's log" % (base, i, k, i)))
+        # HISTORY across jobs: a job for an explicit window fails at its second host; then the SAME job (same window, same TMPDIR,
+        # same output path) is run again and everything succeeds - with different log contents on the servers.  The second job
+        # must download every host again (one request each) and <out>.<i> must be the redaction of what was served NOW.
+        hs = ["h0.example.net:27017", "h1.example.net:27017", "h2.example.net:27017"]
+        old = [atlas_payload(rng, i, 3) for i in range(3)]
+        new = [atlas_payload(rng, i + 10, 4 + i) for i in range(3)]
+        win = (1700000000, 1700003600)
+        r1 = run_atlas(fakeatlas.Scenario(hs, [fakeatlas.gz(p) for p in old], faults={1: ("http", 500)}), work, dates=win)
+        r2 = run_atlas(fakeatlas.Scenario(hs, [fakeatlas.gz(p) for p in new]), work, dates=win, reuse_dir=r1["dir"])
+        n += 2
+        rep = {"cfg": "-", "cli_flags": r2["args"][1:], "input": "3 hosts, explicit window; job 1 fails at host 1 (HTTP 500); job 2 = the same job again, all hosts fine, other log contents"}
+        dl = [e for e in r2["log"] if e["authed"] and e["path"].endswith("/logs/mongodb.gz")]
+        if r2["rc"] != 0:
+            viol.append(dict(rep, site="atlas:history:second-job-failed", detail="exit %d: %s" % (r2["rc"], r2["stderr"][-200:].decode("utf-8", "replace"))))
+        elif [e.get("host_index") for e in dl] != [0, 1, 2]:
+            viol.append(dict(rep, site="atlas:history:downloads-skipped", detail="the second job sent the log downloads %r (expected one per host, in order)" % [e.get("host_index") for e in dl]))
+        else:
+            base = os.path.basename(r2["out"])
+            for i, plain in enumerate(new):
+                rc2, exp = expected_redaction(plain, [], work)
+                if r2["outputs"].get("%s.%d" % (base, i)) != exp:
+                    viol.append(dict(rep, site="atlas:history:stale-output", detail="%s.%d of the second job is not the redaction of what host %d served to that job" % (base, i, i)))
+        if r1["tmp_left"] or r2["tmp_left"]:
+            viol.append(dict(rep, site="atlas:tmp-left", detail="temporary files left after the two jobs: %r" % sorted(set(r1["tmp_left"]) | set(r2["tmp_left"]))))
     finally:
         shutil.rmtree(work, ignore_errors=True)
     return result(viol, n, n, "whole program against an in-process fake Atlas endpoint (digest challenge): clusters with 1..5 hosts with / without ports, payloads empty / small / multi-member gzip, flag sets, given and default window, key pair by flag or environment; request log (order, paths, query, valid digest, unauthenticated twins), every <out>.<i> byte-compared with the tool's own redaction of the same bytes given as a file",
                   dist, [{"hosts": 3}])
 
 
-ATLAS_FAULTS = ["enc-badkey", "enc-shortkey", "enc-key-unwritable", "enc-key-is-dir", "cluster-http500", "cluster-reset", "cluster-http401", "host-http500", "host-http403", "host-http404", "host-reset", "host-cut0", "host-cut", "host-empty200", "not-gzip", "long-line", "out-blocked", "srv", "none"]
+ATLAS_FAULTS = ["enc-badkey", "enc-shortkey", "enc-key-unwritable", "enc-key-is-dir", "cluster-http500", "cluster-reset", "cluster-http401", "host-http500", "host-http403", "host-http404", "host-reset", "host-cut0", "host-cut", "host-cut-then-401", "host-cut-then-reset", "host-cut-cut-500", "host-empty200", "not-gzip", "long-line", "out-blocked", "srv", "none"]
 
 
 def oracle_c17(tables, seed, tier, deep):
@@ -2796,6 +2870,12 @@ def oracle_c17(tables, seed, tier, deep):
                         faults[k] = ("cut", 0)
                     elif fault == "host-cut":
                         faults[k] = ("cut", max(1, len(payloads[k]) // 2))
+                    elif fault == "host-cut-then-401":
+                        faults[k] = ("seq", [("cut", max(1, len(payloads[k]) // 2)), ("http", 401), ("http", 401), ("http", 401)])
+                    elif fault == "host-cut-then-reset":
+                        faults[k] = ("seq", [("cut", max(1, len(payloads[k]) // 3)), ("reset",), ("reset",), ("reset",)])
+                    elif fault == "host-cut-cut-500":
+                        faults[k] = ("seq", [("cut", 1), ("cut", 2), ("http", 500), ("http", 500)])
                     elif fault == "host-empty200":
                         payloads[k] = b""          # HTTP 200 with a complete, empty body
                     elif fault == "not-gzip":
@@ -2854,13 +2934,14 @@ def oracle_c20(tables, seed, tier, deep):
     viol, dist = [], collections.Counter()
     n = 0
     keys = ["zqPRIVATEkey-0123456789", "pri v/key+with=odd&chars%zq", "zqtrailingspacekey ", "zqnewlinekey123\n"] if big else ["zqPRIVATEkey-0123456789", "pri v/key+with=odd&chars%zq", "zqnewlinekey123\n"]
+    keys += ["zQ7~", "Z~"]          # very short keys (a "masked" key that keeps the last characters shows them whole)
     scen = [("digest", {}, None, False), ("none", {}, None, False), ("basic", {}, None, False), ("reject", {}, None, False), ("digest", {}, None, True),
             ("digest", {1: ("http", 500)}, None, True), ("digest", {0: ("http", 403)}, None, True), ("digest", {1: ("cut", 30)}, None, False), ("digest", {}, ("http", 500), True),
             ("digest", {0: ("reset",)}, None, False), ("basic", {}, None, True)]
     try:
         for ki, priv in enumerate(keys):
             for si, (auth, faults, cf, echo) in enumerate(scen):
-                if not big and ki > 0 and si not in (0, 2, 4):
+                if not big and ki > 0 and si not in ((3, 6, 8) if len(priv) <= 4 else (0, 2, 4)):
                     continue
                 hs = ["h0.example.net:27017", "h1.example.net:27017"]
                 payloads = [fakeatlas.gz(atlas_payload(rng, i, 4)) for i in range(2)]
